@@ -144,7 +144,14 @@ func (v *vc) execCall(fr *frame, st *state, instr ssa.Instruction, c *ssa.CallCo
 			v.contractCall(fr, st, instr, fc, nil, c, append([]string{recv}, args...), res, site)
 			return
 		}
-		// try "(pkg.Iface).Method" with package name only
+		// methods of unnamed interface types (struct fields such as PointsWriter.HintedHandoff) are keyed
+		// "<package of the function under contract>.(iface).<Method>"
+		if _, named := c.Value.Type().(*types.Named); !named && v.fc != nil {
+			if fc := v.eng.contracts.funcs[v.fc.pkgPath+".(iface)."+c.Method.Name()]; fc != nil {
+				v.contractCall(fr, st, instr, fc, nil, c, append([]string{recv}, args...), res, site)
+				return
+			}
+		}
 		v.note("call of interface method %s without contract: everything havocked", name)
 		v.havocAll(st)
 		v.setResult(fr, st, res, v.havocResults(st, sig, shortCallee(c)))
@@ -163,6 +170,11 @@ func (v *vc) execCall(fr *frame, st *state, instr ssa.Instruction, c *ssa.CallCo
 			callee = mc.Fn.(*ssa.Function)
 			clo = mc
 		}
+	}
+	if callee == nil && v.fc != nil && v.fc.dynPure {
+		v.trusted["assumed in contract of "+v.fnName+": calls through function values do not write the modelled state"] = true
+		v.setResult(fr, st, res, v.havocResults(st, sig, "dyn"))
+		return
 	}
 	if callee == nil {
 		v.note("dynamic call in %s: everything havocked", fr.fn.Name())
@@ -446,14 +458,29 @@ func (v *vc) ghostUpdates(fr *frame, st *state, where string) {
 		return
 	}
 	for _, g := range v.fc.ghostAt {
+		gw := g.where
+		if k := strings.Index(gw, "#*"); k >= 0 && k+2 <= len(gw) {
+			// "send#*" matches every ordinal of that site kind
+			if h := strings.Index(where, "#"); h >= 0 && where[:h] == gw[:k] {
+				rest := where[h+1:]
+				j := 0
+				for j < len(rest) && rest[j] >= '0' && rest[j] <= '9' {
+					j++
+				}
+				gw = where[:h+1] + rest[:j] + gw[k+2:]
+			}
+		}
 		if fr.top {
-			if g.where != where {
+			if gw != where {
 				continue
 			}
-		} else if g.where != where+" in "+fr.fn.Name() {
+		} else if gw != where+" in "+fr.fn.Name() {
 			continue
 		}
 		se := v.newSpecEnv(fr, st, nil)
+		for n, t := range v.hookNames {
+			se.names[n] = t
+		}
 		for i, t := range v.lastCall {
 			rt := v.lastCallSig.Results().At(i).Type()
 			se.names[fmt.Sprintf("callresult%d", i)] = tv{term: t, typ: rt}
@@ -462,6 +489,11 @@ func (v *vc) ghostUpdates(fr *frame, st *state, where string) {
 			}
 		}
 		se.block = v.curBlock
+		if g.name == "@assume" {
+			v.fact(st, se.evalAssume(g.expr))
+			v.trusted["assumed in contract of "+v.fnName+" at "+g.where+": "+strings.TrimSpace(g.text)] = true
+			continue
+		}
 		if k := strings.Index(g.name, "["); k > 0 && strings.HasSuffix(g.name, "]") {
 			// ghost map update: name[index] = expr
 			base := g.name[:k]
@@ -715,6 +747,9 @@ func (v *vc) callMods(fr *frame, c *ssa.CallCommon, m *modSet, depth int) {
 	var callee *ssa.Function
 	if c.IsInvoke() {
 		fc = v.eng.contracts.funcs["."+name]
+		if _, named := c.Value.Type().(*types.Named); fc == nil && !named && v.fc != nil {
+			fc = v.eng.contracts.funcs[v.fc.pkgPath+".(iface)."+c.Method.Name()]
+		}
 	} else {
 		switch f := c.Value.(type) {
 		case *ssa.Function:
